@@ -834,7 +834,64 @@ fn gen_seqs(rng: &mut Rng, alpha: &str, maxlen: usize, ragged: bool) -> String {
     lens.iter().map(|&l| gen_seq(rng, alpha, l, 6)).collect::<Vec<_>>().join("/")
 }
 
+/// count rows that are (nearly) their own reverse complement: row L-1-i is row i with the
+/// columns permuted by the complement (A<->T, C<->G for the 5-column DNA layout ACTGN, column
+/// reversal otherwise); the centre row of an odd width is free (usually NOT self-complementary)
+/// and now and then one flank cell is perturbed. Aimed at symmetric fast paths of
+/// reverse_complement (seeded/C10/8) that random matrices practically never reach.
+fn gen_counts_mirrored(rng: &mut Rng, k: usize, maxrows: usize) -> String {
+    let rows = (*rng.pick(&[1usize, 2, 3, 3, 4, 5, 5, 7, 9, 12])).min(maxrows.max(1));
+    gen_counts_mirrored_w(rng, k, rows)
+}
+
+fn gen_counts_mirrored_w(rng: &mut Rng, k: usize, rows: usize) -> String {
+    let comp = |j: usize| -> usize {
+        if k == 5 {
+            [2usize, 3, 0, 1, 4][j]
+        } else if j + 1 == k {
+            j
+        } else {
+            k - 2 - j
+        }
+    };
+    let mut m: Vec<Vec<u64>> = vec![vec![0u64; k]; rows];
+    for i in 0..(rows + 1) / 2 {
+        for j in 0..k {
+            let v = if j + 1 == k && !rng.chance(1, 4) { 0 } else { rng.below(30) };
+            m[i][j] = v;
+        }
+        let src = m[i].clone();
+        if rows - 1 - i != i {
+            for j in 0..k {
+                m[rows - 1 - i][comp(j)] = src[j];
+            }
+        }
+    }
+    match rng.below(4) {
+        // a true palindrome: the centre row made self-complementary too
+        0 if rows % 2 == 1 => {
+            let c = rows / 2;
+            for j in 0..k {
+                let a = m[c][j].max(m[c][comp(j)]);
+                m[c][j] = a;
+                m[c][comp(j)] = a;
+            }
+        }
+        // one perturbed flank cell
+        1 if rows >= 2 => {
+            let i = rng.below(rows as u64) as usize;
+            let j = rng.below((k - 1) as u64) as usize;
+            m[i][j] += 1 + rng.below(3);
+        }
+        _ => {}
+    }
+    fmt_rows(&m)
+}
+
 fn gen_counts(rng: &mut Rng, k: usize, maxrows: usize) -> String {
+    if maxrows >= 1 && rng.chance(1, 8) {
+        return gen_counts_mirrored(rng, k, maxrows);
+    }
     let rows = rng.below(maxrows as u64 + 1) as usize;
     let style = rng.below(4);
     (0..rows)
@@ -1411,7 +1468,10 @@ fn gen_c10(rng: &mut Rng, id: usize, tier: &str) -> String {
         format!("seqs={}", seqs.join("/"))
     } else {
         let mut c = gen_counts(rng, k, 0);
-        if w > 0 {
+        if w > 0 && rng.chance(1, 5) {
+            // (nearly) reverse-palindromic counts: symmetric fast paths, centre rows
+            c = gen_counts_mirrored_w(rng, k, w);
+        } else if w > 0 {
             let rows: Vec<String> = (0..w)
                 .map(|_| {
                     (0..k)
